@@ -53,10 +53,10 @@ Section Spec.
   (** the start path as the recorder understands it: scheme removed, normalised *)
   Definition start_path (start : str) : str := normpath (fst (strip_scheme_prefix start)).
 
-  (** [reachable cwd start f c]: the start path is not excluded and either is itself (a link to)
+  (** [reachable cwd start f c]: the start path is '.' or is not excluded, and either is itself (a link to)
       a regular file, or is (a link to) a directory with [f] below it. *)
   Definition reachable (cwd : list str) (start f : str) (c : list N) : Prop :=
-    excl (start_path start) = false /\
+    excl_start excl (start_path start) = false /\
     ((path_denotes cwd (start_path start) (RFile c) /\ f = start_path start) \/
      (exists loc, path_denotes cwd (start_path start) (RDir loc) /\ below (start_path start) loc f c)).
 End Spec.
